@@ -106,7 +106,7 @@ export function makeData(rng, opts = {}) {
   return D
 }
 
-export const MODULE_CODE = (tag) => `module.exports = { x: "M:${tag}.x", f: function (a) { return "M:${tag}.f(" + a + ")" }, g: function () { return arguments.length } }`
+export const MODULE_CODE = (tag) => `module.exports = { x: "M:${tag}.x", f: function (a) { return "M:${tag}.f(" + a + ")" }, g: function () { return arguments.length } }\n/* 漢\n😀 */ // 😀 ${tag}`
 
 /** A random file set: main file 'p' (or `mainPath`), optional included file, sub-templates, an inline module. */
 export function genFileSet(rng, opts = {}) {
